@@ -112,4 +112,7 @@ unconditionally (a truthiness test would drop the valid seed 0) -/
 theorem src_seed_unconditional :
     Gen.decomposerSeedIsConditional = false ∧ Gen.decomposerSeedArgs.all (· == "self.random_state") = true := by decide
 
+/-- source obligation: POP hands its `solver_kwargs` to the PCA step -/
+theorem src_pop_forwards_solver_kwargs : Gen.popPCA.lookup "solver_kwargs" = some "solver_kwargs" := by decide
+
 end C15
